@@ -202,14 +202,17 @@ def arith_features(toks):
 
 
 def date_like(toks):
-    """num / num / num that reads as day/month/(any year): outside C02 (it is a date, C09)."""
+    """num / num / num whose operands read as day, month and (positive whole) year: outside C02 (it is a date, C09);
+    mirror of Arith!DateLike for the random driver"""
     for i in range(len(toks) - 4):
         w = toks[i:i + 5]
         if (w[0]["k"] == "num" and w[2]["k"] == "num" and w[4]["k"] == "num"
                 and w[1]["k"] == "op" and w[1]["c"] == "/" and w[3]["k"] == "op" and w[3]["c"] == "/"):
             d = Fraction(w[0]["m"][0], w[0]["m"][1])
             m = Fraction(w[2]["m"][0], w[2]["m"][1])
-            if 1 <= int(d) <= 31 and 1 <= int(m) <= 12 and not w[0].get("sfx") and not w[2].get("sfx"):
+            y = Fraction(w[4]["m"][0], w[4]["m"][1])
+            if (d.denominator == 1 and m.denominator == 1 and y.denominator == 1 and 1 <= d <= 31 and 1 <= m <= 12 and y >= 1
+                    and not w[0].get("sfx") and not w[2].get("sfx")):
                 return True
     return False
 
@@ -555,6 +558,8 @@ def money_texts(q, code, cfg, every=False, salt=0, suffix=""):
             out.append(("sym_glued", "%s%s" % (n, s)))
     for w in sp["words"]:
         out.append(("alias", "%s %s" % (n, w)))
+        if w.upper().lower() == w and w.upper() != w:
+            out.append(("ALIAS", "%s %s" % (n, w.upper())))
     if every:
         return out
     return [out[salt % len(out)]]
